@@ -1146,6 +1146,8 @@ def run_c11(ctx):
             w = g.r.choice(WS_CHARS)
             text = "( alpha ( beta gamma%s ) 7 ( %sdelta INTEGER.+ ) omega%s )" % (w, g.r.choice(WS_CHARS), g.r.choice(WS_CHARS))
         cs.append({"id": "srctree-%06d" % i, "pre": gen.empty_state(), "acts": [{"a": "parse", "text": text}, {"a": "roundtrip", "src": True}, {"a": "print"}]})
+    for n in ((60, 127, 128, 129, 200, 300) if q else (1, 2, 55, 56, 100, 126, 127, 128, 129, 130, 200, 255, 256, 257, 300, 500, 1000)):
+        cs.append({"id": "deeptree-%04d" % n, "pre": gen.empty_state(), "acts": [{"a": "roundtrip", "deep": n}]})
     run_events(ctx, "source_texts", cs)
     # every instruction next to every kind of atom (the printed neighbours of a token must not change how it reads)
     atoms = [{"k": "int", "v": 7}, {"k": "float", "v": gen.f2b(-2.5)}, {"k": "bool", "v": True}, {"k": "ins", "v": "INTEGER.DUP"},
